@@ -119,6 +119,22 @@ def h_maxvol_rect(ctx, n, r, perm, dr_min, dr_max, k0):
     ctx.claim('finite', finite(ctx, [B]))
 
 
+def h_dispatch_rect(ctx, n, r, perm, dr_min, dr_max):
+    """teneva._maxvol with requested growth bounds that exceed the rows available
+    (n - r): the bounds are clamped, never rejected (this is how TT-cross calls it)."""
+    A = _plu(ctx, n, r, perm)
+    A0 = A.copy()
+    I, B = teneva._maxvol(A, 1.1, dr_min, dr_max, 1.05, 1)
+    I = [int(i) for i in I]
+    q = len(I)
+    hi = min(n, r + dr_max)
+    lo = min(r + dr_min, hi)
+    ctx.claim('rows_count_clamped', lo <= q <= hi)
+    ctx.claim('rows_valid', len(set(I)) == q and all(0 <= i < n for i in I))
+    ctx.claim('A_eq_B_AI', ctx.all_eq(B @ A0[I, :], A0))
+    ctx.claim('B_I_identity', ctx.all_eq(B[I, :], eye(ctx, q)))
+
+
 def h_reject(ctx, n, r):
     A = mat(ctx, 'a', n, r)
     ctx.raises(ValueError, 'wide_or_square_rejected', teneva.maxvol, A)
@@ -158,6 +174,8 @@ def instances(tier):
         for p in perms(n, r, False)[:2 if tier == 'quick' else 3]:
             out.append({'func': 'h_maxvol_rect', 'params': {'n': n, 'r': r, 'perm': list(p),
                                                             'dr_min': a, 'dr_max': b, 'k0': k0}})
+    for (n, r, a, b) in [(3, 2, 2, 2), (3, 1, 3, 5), (4, 2, 3, 3), (3, 2, 1, 1)]:
+        out.append({'func': 'h_dispatch_rect', 'params': {'n': n, 'r': r, 'perm': list(range(n)), 'dr_min': a, 'dr_max': b}})
     for n, r in [(2, 2), (2, 3), (1, 1)]:
         out.append({'func': 'h_reject', 'params': {'n': n, 'r': r}})
         out.append({'func': 'h_dispatch', 'params': {'n': n, 'r': r}})
